@@ -63,6 +63,8 @@ class Forwarder:
             kids = rc.children(cpv, vs, ve)
             nm = [k for k in kids if k[0] == 7]
             info['prefix'] = rc.read_name(cpv, nm[0][1], nm[0][2], nm[0][3]) if nm else None
+            if not nm:
+                info['problems'].append('control-parameters-without-name')
         except (rc.Reject, KeyError, IndexError) as e:
             info['problems'].append(f'control-parameters-undecodable')
             info['prefix'] = None
@@ -392,6 +394,8 @@ def run(ctx):
         fe = 'v2' if i % 2 == 0 else 'v1'
         k = 1 if rng.random() < 0.55 else rng.randint(2, 12)
         prefixes = [gen.simple_name(rng, 1, 4) for _ in range(rng.randint(1, k))]
+        if rng.random() < 0.15:
+            prefixes[0] = []          # the root prefix "/" is a prefix too
         ops = []
         for j in range(k):
             ops.append((rng.choice(['register', 'register', 'unregister']), rng.choice(prefixes)))
